@@ -40,6 +40,7 @@ type layOut struct {
 	ID    string `json:"id"`
 	Doc   bool   `json:"doc"`
 	Trail bool   `json:"trail"`
+	Nf    int    `json:"nf"`
 }
 type layCase struct {
 	Layout struct {
@@ -48,6 +49,7 @@ type layCase struct {
 		Build   string    `json:"build"`
 		Imports string    `json:"imports"`
 		Sibling string    `json:"sibling"`
+		Embed   string    `json:"embed"`
 	} `json:"layout"`
 	Rejected bool     `json:"rejected"`
 	Out      []layOut `json:"out"`
@@ -65,6 +67,29 @@ func layMethods(it *layItem) []string {
 		return []string{"H", "J"}[:it.Nmeth]
 	}
 	return []string{up(it.ID) + "Alpha", up(it.ID) + "Beta"}[:it.Nmeth]
+}
+
+// layEmbedded is the interface the first converter interface embeds and the
+// name of its one method ("" for none).
+func layEmbedded(l *layCase) (intf, method string) {
+	switch l.Layout.Embed {
+	case "file":
+		return "PlainEmb", "EmbAlpha"
+	case "sibling":
+		return "SibEmb", "SibEmbAlpha"
+	}
+	return "", ""
+}
+
+// layFirstConv is the first converter interface of the file (nil for none).
+func layFirstConv(l *layCase) *layItem {
+	for i := range l.Layout.Items {
+		it := &l.Layout.Items[i]
+		if it.K == "intf" && (it.Named || it.Marked) {
+			return it
+		}
+	}
+	return nil
 }
 
 func layIntfName(it *layItem) string {
@@ -181,6 +206,9 @@ func layRender(l *layCase) map[string]string {
 		}
 		ms := layMethods(it)
 		sig := func(m string) string {
+			if it.ID == "emb" {
+				return m + "(*LayA) *LayB" // embedded by a converter interface: a method of converter shape
+			}
 			if !selected {
 				return m + "(x int) string"
 			}
@@ -193,11 +221,15 @@ func layRender(l *layCase) map[string]string {
 			fmt.Fprintf(&sb, "type %s interface{ %s }", layIntfName(it), sig(ms[0]))
 		} else {
 			fmt.Fprintf(&sb, "type %s interface {\n", layIntfName(it))
+			if emb, _ := layEmbedded(l); emb != "" && it == layFirstConv(l) {
+				fmt.Fprintf(&sb, "\t%s\n", emb)
+			}
 			for k, m := range ms {
 				if it.Mdoc {
 					fmt.Fprintf(&sb, "\t// %s is documented tokMD%s%d.\n", m, it.ID, k)
 					if selected {
-						sb.WriteString("\t// :typecast\n")
+						// notation lines interleaved with prose: every notation line goes, every prose line stays
+						fmt.Fprintf(&sb, "\t// :typecast\n\t// second paragraph tokME%s%d\n\t// :stringer\n\t// :getter:off\n\t// last line tokMF%s%d\n", it.ID, k, it.ID, k)
 					}
 				}
 				tr := ""
@@ -223,6 +255,9 @@ func layRender(l *layCase) map[string]string {
 		files["p/sib.go"] = "package p\n\n// :convergen\ntype SibMarked interface {\n\tSibAlpha(*LayA) *LayB\n}\n"
 	case "named":
 		files["p/sib.go"] = "package p\n\ntype Convergen interface {\n\tSibAlpha(*LayA) *LayB\n}\n"
+	}
+	if lay.Embed == "sibling" {
+		files["p/sibemb.go"] = "package p\n\n// SibEmb is embedded by a converter interface of the input file.\ntype SibEmb interface {\n\tSibEmbAlpha(*LayA) *LayB\n}\n"
 	}
 	return files
 }
@@ -271,6 +306,10 @@ func layProject(l *layCase, src []byte) (*layObs, error) {
 			byDecl["TMark"+up(it.ID)] = it
 		}
 	}
+	_, embMethod := layEmbedded(l)
+	if embMethod != "" {
+		owner[embMethod] = layFirstConv(l)
+	}
 	lineOf := func(p token.Pos) int { return fset.Position(p).Line }
 	// comment token -> line
 	tokLine := map[string]int{}
@@ -287,7 +326,15 @@ func layProject(l *layCase, src []byte) (*layObs, error) {
 		switch x := d.(type) {
 		case *ast.FuncDecl:
 			name := x.Name.Name
-			if it, ok := owner[name]; ok && x.Recv == nil {
+			if it, ok := owner[name]; ok && it != nil && x.Recv == nil && name == embMethod {
+				// generated for the embedded method: belongs to the embedding interface
+				o.FuncsOf[it.ID] = append(o.FuncsOf[it.ID], name)
+				if n := len(o.Items); !(n > 0 && o.Items[n-1].K == "funcs" && o.Items[n-1].ID == it.ID) {
+					o.Items = append(o.Items, layOut{K: "funcs", ID: it.ID, Doc: it.Mdoc})
+				}
+				continue
+			}
+			if it, ok := owner[name]; ok && it != nil && x.Recv == nil {
 				// generated function
 				k := 0
 				for i, m := range layMethods(it) {
@@ -297,7 +344,7 @@ func layProject(l *layCase, src []byte) (*layObs, error) {
 				}
 				doc := true
 				if it.Mdoc {
-					doc = docHas(x.Doc, fmt.Sprintf("tokMD%s%d", it.ID, k))
+					doc = docHas(x.Doc, fmt.Sprintf("tokMD%s%d", it.ID, k)) && docHas(x.Doc, fmt.Sprintf("tokME%s%d", it.ID, k)) && docHas(x.Doc, fmt.Sprintf("tokMF%s%d", it.ID, k))
 				}
 				if x.Doc != nil {
 					for _, c := range x.Doc.List {
@@ -700,7 +747,7 @@ func c11Deviation(r *layRun, problems []string) string {
 	}
 	culprit := false
 	for i := range want {
-		if want[i] == got[i] {
+		if w, g := want[i], got[i]; w.K == g.K && w.ID == g.ID && w.Doc == g.Doc && w.Trail == g.Trail {
 			continue
 		}
 		// the only permitted difference: a blockvar+doc+generate declaration without its doc
@@ -770,6 +817,18 @@ func C17(c *core.Ctx) {
 				g := append([]string(nil), r.obs.FuncsOf[it.ID]...)
 				sort.Strings(g)
 				w := append([]string(nil), layMethods(it)...)
+				nf := 0
+				for _, o := range r.l.Out {
+					if o.K == "funcs" && o.ID == it.ID {
+						nf = o.Nf
+					}
+				}
+				if _, em := layEmbedded(r.l); em != "" && it == layFirstConv(r.l) {
+					w = append(w, em)
+				}
+				if nf != len(w) {
+					core.Machinery("C17: Selection.tla demands %d functions for %s, the concretisation has %d methods", nf, it.ID, len(w))
+				}
 				sort.Strings(w)
 				if strings.Join(g, ",") != strings.Join(w, ",") {
 					p = append(p, fmt.Sprintf("interface %s: functions %v, one per method %v required", layIntfName(it), g, w))
@@ -789,5 +848,5 @@ func C17(c *core.Ctx) {
 	c.Set("layouts", len(cases))
 	c.Set("exhaustive", true)
 	c.Sample(map[string]any{"layout": layDescribe(cases[len(cases)/2]), "setup": layRender(cases[len(cases)/2])["p/setup.go"], "required_items": cases[len(cases)/2].Out, "rejected": cases[len(cases)/2].Rejected})
-	c.Set("rule", "all sequences of 1..3 declarations over {interface named Convergen, interface with a :convergen doc line, unmarked interface, interface whose doc has marker-like text that is no marker, non-interface type with a :convergen line} x sibling file {none, with a marked interface, with an interface named Convergen} (423 files, exhaustive); converted ids, surviving interfaces (methods, docs, trailing comments intact), rejection iff no converter interface in the input file, nothing generated for sibling files")
+	c.Set("rule", "all sequences of 1..3 declarations over {interface named Convergen, interface with a :convergen doc line, unmarked interface, interface whose doc has marker-like text that is no marker, non-interface type with a :convergen line} x sibling file {none, with a marked interface, with an interface named Convergen} x the first converter interface embedding {nothing, an unmarked interface of this file declared before or after it, an interface of a sibling file} (exhaustive); converted ids, surviving interfaces (methods, docs, trailing comments intact), rejection iff no converter interface in the input file, nothing generated for sibling files")
 }
